@@ -49,6 +49,8 @@ SPEC = Spec(
         "MExpr.goQuote is strconv.Quote restricted to text that needs no escaping (exact for the marker)",
     ],
     assumptions=[
+        "'stored unchanged' is checked byte for byte also for secrets with leading/trailing white space (blanks, tabs, newline/PEM, CRLF, NBSP, U+3000, white space only) through confmap.Unmarshal "
+        "(scalar, pointer, slice element, map value, confighttp.ClientConfig.Headers), the real Resolver, encoding/json and yaml: harness oracle C14/unmarshal/secret-altered/...",
         "the fmt / json / yaml / gob / zap / slog dispatch is a hand model written from go1.23 sources; it is enumerated against the libraries of the default toolchain (go 1.23.5) on every "
         "run and against go1.26 in the thorough tier (harness fmt_go126)",
         "clauses 'explicit conversion returns the secret' and 'unmarshalling stores it unchanged' have NO model of the decode path: they are carried by the `op unm` differential "
